@@ -5,6 +5,14 @@
 import HctlProofs.Lemmas.LexerLemmas
 namespace Hctl
 
+/-- identifiers for which printing is unambiguous: a proposition must not be spelled like a constant -/
+def PropNamesOK : Tree → Prop
+  | .atom (.prop n) => constOrProp n = .atom (.prop n)
+  | .atom _ => True
+  | .un _ c => PropNamesOK c
+  | .bin _ l r => PropNamesOK l ∧ PropNamesOK r
+  | .hyb _ _ _ c => PropNamesOK c
+
 /-- the tokens of the canonical fully parenthesised rendering -/
 def canonToks : Tree → List Tok
   | .atom .tt => [.atom (.prop ['T','r','u','e'])]
@@ -23,7 +31,7 @@ structure CharsOK (K : CharClass) : Prop where
   special_not_name : ∀ c ∈ specials, isName K c = false
   special_not_ws : ∀ c ∈ specials, c ≠ ' ' → K.isWs c = false
   space_ws : K.isWs ' ' = true
-  letters : ∀ c ∈ ['T','r','u','e','F','a','l','s','X','G','U','W','E','A','i','n','V','3'], K.isAlnum c = true
+  letters : ∀ c ∈ ['T','r','u','e','F','a','l','s','X','G','U','W','E','A','i','n','V','3','x'], K.isAlnum c = true
 
 variable {K : CharClass} (hK : CharsOK K) (ext : Bool)
 include hK
@@ -66,7 +74,7 @@ theorem name_not_ws {c : Char} (hc : isName K c = true) : K.isWs c = false := by
   | false => rfl
   | true => rw [hK.ws_not_name c h] at hc; cases hc
 
-theorem letter_name {c : Char} (h : c ∈ ['T','r','u','e','F','a','l','s','X','G','U','W','E','A','i','n','V','3']) :
+theorem letter_name {c : Char} (h : c ∈ ['T','r','u','e','F','a','l','s','X','G','U','W','E','A','i','n','V','3','x']) :
     isName K c = true := by
   simp [isName, hK.letters c h]
 
@@ -224,7 +232,7 @@ theorem cvd_render_none (pd : Bool) (v : Name) (hv : ValidId K v) (rest : List C
   have h1' : K.isWs ':' = false := hK.special_not_ws _ (by simp [specials]) (by decide)
   have h2 := collectName_app v ('}' :: ':' :: rest) hv.2 (sep_special hK (by simp [specials]) _)
   have h3 : v.isEmpty = false := by cases v with | nil => exact absurd rfl hv.1 | cons _ _ => rfl
-  cases pd <;> simp [collectVarDom, skipWs, h1, h1', expect, h2, h3]
+  cases pd <;> simp [collectVarDom, domPart, skipWs, h1, h1', expect, h2, h3]
 
 theorem cvd_render_some (v dn : Name) (hv : ValidId K v) (hd : ValidId K dn) (rest : List Char) :
     collectVarDom K true ('{' :: (v ++ '}' :: ' ' :: 'i' :: 'n' :: ' ' :: '%' :: (dn ++ '%' :: ':' :: rest)))
@@ -238,7 +246,7 @@ theorem cvd_render_some (v dn : Name) (hv : ValidId K v) (hd : ValidId K dn) (re
   have h3 : v.isEmpty = false := by cases v with | nil => exact absurd rfl hv.1 | cons _ _ => rfl
   have h3' : dn.isEmpty = false := by cases dn with | nil => exact absurd rfl hd.1 | cons _ _ => rfl
   have hi : K.isWs 'i' = false := name_not_ws hK (letter_name hK (by simp))
-  simp [collectVarDom, skipWs, h1, h1', h1'', hi, hK.space_ws, expect, h2, h2', h3, h3']
+  simp [collectVarDom, domPart, skipWs, h1, h1', h1'', hi, hK.space_ws, expect, h2, h2', h3, h3']
 
 theorem lex_hyb_none (o : HybOp) (v : Name) (hv : ValidId K v) (n : Nat) (top : Bool) (rest : List Char) :
     lexRec K ext (n + 1) top (o.str ++ '{' :: (v ++ '}' :: ':' :: rest)) = cons (.hyb o v none) (lexRec K ext n top rest) := by
